@@ -262,11 +262,13 @@ func CoqCase(ver *common.VersionedTransaction, st *Store, f *Facts, ts uint64, f
 	tx := &ver.SignedTransaction
 	hash := ver.PayloadHash()
 
+	// only the entries the code under test actually read are sent: a model that
+	// reads anything else sees "absent" and, if that matters, disagrees visibly
 	var utxos []string
 	seenSlot := map[string]bool{}
 	for _, in := range tx.Inputs {
 		k := slotKey(in.Hash, in.Index)
-		if seenSlot[k] {
+		if seenSlot[k] || !st.readUtxo[k] {
 			continue
 		}
 		seenSlot[k] = true
@@ -274,41 +276,29 @@ func CoqCase(ver *common.VersionedTransaction, st *Store, f *Facts, ts uint64, f
 			utxos = append(utxos, "("+hN(in.Hash)+", "+vh.ZU(uint64(in.Index))+", "+coqUtxo(u)+")")
 		}
 	}
-
-	// transactions reachable by hash: references, input hashes, and the inputs of those
-	var want []crypto.Hash
-	want = append(want, tx.References...)
-	for _, in := range tx.Inputs {
-		want = append(want, in.Hash)
-		if s := st.txs[in.Hash]; s != nil {
-			for _, li := range s.ver.Inputs {
-				want = append(want, li.Hash)
-			}
-		}
-	}
 	var txs []string
-	seenTx := map[crypto.Hash]bool{}
-	for _, h := range want {
-		if seenTx[h] {
-			continue
-		}
-		seenTx[h] = true
+	for _, h := range st.readTxOrder {
 		if s := st.txs[h]; s != nil {
 			txs = append(txs, "("+hN(h)+", "+vh.App("Build_stx", coqTx(&s.ver.SignedTransaction, s.ver.PayloadHash(), st, false),
 				hN(s.ver.PayloadHash()), vh.Bool(s.final))+")")
 		}
 	}
-
+	depLock := hN(crypto.Hash{})
+	if st.readDepLock {
+		depLock = hN(st.deposit)
+	}
 	mint := vh.None("(Z * Z * N)")
-	if m := st.mint; m != nil {
+	if m := st.mint; m != nil && st.readMint {
 		mint = vh.Some("(" + vh.ZU(m.Batch) + ", " + amtZ(m.Amount) + ", " + hN(m.Transaction) + ")")
 	}
-	nodes := make([]string, len(st.nodes))
-	for i, n := range st.nodes {
-		nodes[i] = vh.App("Build_node", kN(n.Signer.PublicSpendKey), kN(n.Payee.PublicSpendKey), vh.ZI(stateCode(n.State)), hN(n.Transaction))
+	var nodes []string
+	if st.readNodes {
+		for _, n := range st.nodes {
+			nodes = append(nodes, vh.App("Build_node", kN(n.Signer.PublicSpendKey), kN(n.Payee.PublicSpendKey), vh.ZI(stateCode(n.State)), hN(n.Transaction)))
+		}
 	}
 	cust := vh.None("custodian")
-	if c := st.custodian; c != nil {
+	if c := st.custodian; c != nil && st.readCust {
 		ns := make([]string, len(c.Nodes))
 		for i, n := range c.Nodes {
 			ns[i] = "(" + addrTerm(n.Custodian) + ", " + addrTerm(n.Payee) + ")"
@@ -316,7 +306,7 @@ func CoqCase(ver *common.VersionedTransaction, st *Store, f *Facts, ts uint64, f
 		cust = vh.Some(vh.App("Build_custodian", addrTerm(*c.Custodian), vh.List(ns, "(addr * addr)")))
 	}
 	var assets []string
-	if a := st.assets[tx.Asset]; a != nil {
+	if a := st.assets[tx.Asset]; a != nil && st.readAsset {
 		assets = append(assets, "("+hN(tx.Asset)+", ("+hN(a.asset.Chain)+", "+vh.Bytes([]byte(a.asset.AssetKey))+", "+vh.Z(a.balance)+"))")
 	}
 	bad := make([]string, len(f.BadKeys))
@@ -332,7 +322,7 @@ func CoqCase(ver *common.VersionedTransaction, st *Store, f *Facts, ts uint64, f
 	for i, p := range f.CustNodes {
 		cn[i] = "(" + vh.Bool(p[0]) + ", " + vh.Bool(p[1]) + ")"
 	}
-	return vh.App("VC", vh.List(utxos, "(N * Z * utxo)"), vh.List(txs, "(N * stx)"), hN(st.deposit), mint,
+	return vh.App("VC", vh.List(utxos, "(N * Z * utxo)"), vh.List(txs, "(N * stx)"), depLock, mint,
 		vh.List(nodes, "node"), cust, vh.List(assets, "(N * (N * bytes * Z))"), vh.Bool(!st.ghostErr),
 		vh.List(bad, "N"), vh.List(sf, "bool"), ghost, vh.List(cn, "(bool * bool)"),
 		hN(hash), vh.ZU(ts), vh.Bool(fork), coqTx(tx, hash, st, true), obs)
